@@ -44,6 +44,21 @@ CLAIMS = {
             'semantics and are not shared by the generator.',
             'TLA+ heap machine + TLC exhaustive generation; replay into fiddle; recorded invocation orders '
             'validated against the Call action'),
+    'C05': ('fault_enumeration',
+            'The build machine with faults is specified in TLA+ (MC_C05: failing node, nested fdl.build inside a '
+            'callable, per-thread guard flag, repeated builds, repair) and TLC checks FlagReset, FailureIsLast, '
+            'OnceAndDepsFirst, PathLeadsToFailing, NextBuildNormal and the action properties NoCallAfterFailure '
+            'and ConfigUnchanged over all heaps and fault placements in the bound. On the real library every '
+            'Buildable of every TLC-generated heap is made the failing node, crossed with nine exception class '
+            'shapes, diagnostic hazards, nested builds and repeated failures; the escaped exception (class, '
+            'message prefix, path membership in the specification\'s path set and identity of the object the path '
+            'reaches), the invocation log, the configuration and the next build are compared with the specification.',
+            'DESIGN.md §5 C05',
+            'Trusted: TLC, harness. The path is parsed from the documented message format. Three by-design '
+            'deviations (BaseException-only classes, un-subclassable classes, failure while formatting the '
+            'diagnostic) are recorded in known_findings.json and printed as KNOWN-FINDING.',
+            'TLA+ fault machine checked by TLC; exhaustive fault enumeration over TLC-generated heaps replayed '
+            'into fiddle'),
     'C03': (MC,
             'TLC explores the level-A argument-store specification (FdlStore: a dict restricted to the '
             'signature plus a Python list with a fixed prefix) exhaustively for all signatures of <= 3-4 '
